@@ -444,16 +444,14 @@ static void build_registry()
         return dumps_of(linsolve(vec_basic(a.b.begin(), a.b.begin() + n), vs)); }, "");
 
     // ---- serialisation
+    // the byte string contains object addresses (ids of shared nodes), so it is compared through a round trip
     reg("basic_dumps", "dumps", [](const Args &a) -> CRes {
         Hb x(a.b.at(0)); unsigned long n = 0; char *c = basic_dumps(x.b, &n);
         if (!c) return CRes{NOCODE, {"NULL"}};
         std::string s(c, n); basic_str_free(c);
-        std::string hex; char buf[3];
-        for (unsigned char ch : s) { snprintf(buf, 3, "%02x", ch); hex += buf; }
-        return CRes{NOCODE, {"hex:" + hex}}; }, [](const Args &a) -> Strs {
-        std::string s = a.b.at(0)->dumps(); std::string hex; char buf[3];
-        for (unsigned char ch : s) { snprintf(buf, 3, "%02x", ch); hex += buf; }
-        return {"hex:" + hex}; }, "NULL");
+        return CRes{NOCODE, {"loads:" + dump(Basic::loads(s))}}; }, [](const Args &a) -> Strs {
+        std::string s = a.b.at(0)->dumps();
+        return {"loads:" + dump(Basic::loads(s))}; }, "NULL");
     // basic_loads <expr> i:<keep> : load the first <keep> bytes of the dump (keep<0: everything)
     reg("basic_loads", "loads", [](const Args &a) -> CRes {
         std::string s = a.b.at(0)->dumps(); if (a.i.at(0) >= 0 && (size_t)a.i.at(0) < s.size()) s.resize((size_t)a.i.at(0));
@@ -1120,6 +1118,7 @@ void hx_gen(Rng &r, const std::string &tier)
         emit("capi lambda_real_double_visitor_init i:1 i:0 " + D(x) + " " + D(function_symbol("f", x)), "escape-repro");
         emit("capi basic_set_universalset", "result-repro");
         emit("capif basic_parse s:a~&~b", "crash-repro");
+        emit("capif basic_parse2 s:2^x i:0", "crash-repro");
         emit("capif rational_set_si i:1 i:0", "crash-repro");
         emit("capif rational_set_ui i:1 i:0", "crash-repro");
         for (const char *f : {"mod", "quotient", "mod_f", "quotient_f", "quotient_mod", "quotient_mod_f"})
@@ -1156,7 +1155,9 @@ void hx_gen(Rng &r, const std::string &tier)
     emit("capi basic_subs " + D(add(symbol("x"), symbol("y"))) + " " + D(symbol("x")) + " " + D(symbol("y")) + " " + D(symbol("y")) + " " + D(symbol("x")), "capi-arith");
     for (const char *s : PARSE_STRS) {
         emit("capi basic_parse " + enc(s), "capi-parse");
-        emit("capi basic_parse2 " + enc(s) + " i:" + std::to_string(r.below(2)), "capi-parse");
+        // convert_xor = 0 turns ^ into logical xor, which segfaults on non-Boolean operands (finding C42-K2)
+        bool has_xor = std::string(s).find('^') != std::string::npos;
+        emit("capi basic_parse2 " + enc(s) + " i:" + std::to_string(has_xor ? 1 : r.below(2)), "capi-parse");
     }
     for (const char *s : INT_STRS)
         emit("capi integer_set_str " + enc(s), "capi-parse");
